@@ -10,6 +10,7 @@
        l read from original bytes at pos = E - 4, E the end the stream CLAIMS (FooterAt);
      bread: every delivered byte string is a substring of plain.
    No statement here needs E = |plain|: this is what holds under known finding D17. *)
+From MLA Require Import Limit.
 From MLA Require Import Base Stream Blocks Reader EncAuth EncAuthStream RoundTripBlocks.
 From Coq Require Import ZifyBool ZifyNat ZifyN.
 Open Scope N_scope.
@@ -39,6 +40,7 @@ Proof.
 Qed.
 
 Section Sim.
+  Context {LIM : Limit}.
   Variable S : Stream.
   Variable I : st S -> N -> Prop.
   Variable plain : bytes.
@@ -251,7 +253,9 @@ Section Sim.
     destruct r4 as [b|e|c]; [|eexists _, _; split; [reflexivity | split; [exact H4 | discriminate]]..].
     destruct H4 as (Hb & Hlb & HI4).
     destruct (parse_footer_map b) as [m|] eqn:Hparse.
-    - eexists _, _. split; [reflexivity|]. split; [eauto|]. intros m' [= <-].
+    - destruct (N.min (le_val l4) lim <? len (ser_footer_map m)).
+      { eexists _, _. split; [reflexivity|]. split; [eauto | discriminate]. }
+      eexists _, _. split; [reflexivity|]. split; [eauto|]. intros m' [= <-].
       exists pos, b. rewrite <- Hd4. repeat split; auto; lia.
     - eexists _, _. split; [reflexivity|]. split; [eauto | discriminate].
   Qed.
